@@ -84,7 +84,19 @@ void registerCookie(std::map<std::string, Op>& ops)
             for (auto it = jar.begin(); it != jar.end() && guard < 100000; ++guard) { Cookie c = *it++; post.push_back(toHex(c.name) + ":" + toHex(c.value)); }
             std::sort(pre.begin(), pre.end()); std::sort(post.begin(), post.end());
             auto join = [](const std::vector<std::string>& v) { std::string o; for (size_t i = 0; i < v.size(); ++i) { if (i) o += ","; o += v[i]; } return o.empty() ? std::string("-") : o; };
-            return "ok n=" + std::to_string(pre.size()) + " pre=" + join(pre) + " post=" + join(post);
+            // the look-up interface agrees with the iteration: every stored name is found (has, get), a name that is not stored is not
+            std::string lookup = "ok";
+            for (auto it = jar.begin(); it != jar.end(); ++it) {
+                if (!jar.has(it->name)) { lookup = "has-misses:" + toHex(it->name); break; }
+                try { if (jar.get(it->name).name != it->name) { lookup = "get-wrong:" + toHex(it->name); break; } }
+                catch (const std::exception&) { lookup = "get-throws:" + toHex(it->name); break; }
+            }
+            if (lookup == "ok") {
+                std::string absent = "\x01no-such-cookie";
+                if (jar.has(absent)) lookup = "has-invents";
+                else { bool threw = false; try { (void)jar.get(absent); } catch (const std::exception&) { threw = true; } if (!threw) lookup = "get-invents"; }
+            }
+            return "ok n=" + std::to_string(pre.size()) + " pre=" + join(pre) + " post=" + join(post) + " lookup=" + lookup;
         } catch (const std::exception& e) { return "err " + excClass(e); }
     };
 }
